@@ -65,3 +65,7 @@ Lemma mapping_stats_shape_known : MappingStatsShapeFound = true.
 Proof. reflexivity. Qed.
 Lemma bridge_cleanup_shape_known : BridgeCleanupShapeFound = true.
 Proof. reflexivity. Qed.
+
+(* round 7: Dispose.Close was found and its latch classified *)
+Lemma dispose_latch_shape_known : DisposeLatchShapeFound = true.
+Proof. reflexivity. Qed.
